@@ -244,7 +244,7 @@ class Leaves:
                         return {('opaque', 'map')}
                     if m in ('or', 'or_else'):
                         return self.payload(fn, args[0], depth + 1, stack) | {('opaque', m)}
-                    if m in ('ok_or', 'ok_or_else', 'map_err', 'ok', 'as_ref', 'as_mut', 'cloned', 'copied'):
+                    if m in ('ok_or', 'ok_or_else', 'map_err', 'ok', 'as_ref', 'as_mut', 'cloned', 'copied', 'inspect', 'inspect_err'):
                         return self.payload(fn, args[0], depth + 1, stack)
             b = self.body_of(path)
             if b is not None:
@@ -279,7 +279,7 @@ class Leaves:
                 optres = any(n[1].startswith(pre) for pre in OPT_RES)
                 if name in self.PASS_RECV and n[2]:
                     out |= self.recv_root(n[2][0], depth + 1)
-                elif optres and name in ('ok_or', 'ok_or_else', 'map_err', 'ok', 'as_mut', 'cloned', 'copied', 'or_else') and n[2]:
+                elif optres and name in ('ok_or', 'ok_or_else', 'map_err', 'ok', 'as_mut', 'cloned', 'copied', 'or_else', 'inspect', 'inspect_err') and n[2]:
                     out |= self.recv_root(n[2][0], depth + 1)
                 elif optres and name in ('and_then', 'map') and len(n[2]) > 1 and self._closure_path(n[2][1]):
                     # the payload of X.and_then(|p| E) is the payload of E; where E is rooted at the closure parameter p
